@@ -129,7 +129,13 @@ def main(argv=None):
     # replay files for violations
     rep_dir = os.path.join(ROOT, 'replays', pid)
     lines = []
+    seen_v = set()
+    uniq = []
     for o in violations:
+        if o['name'] not in seen_v:
+            seen_v.add(o['name'])
+            uniq.append(o)
+    for o in uniq:
         os.makedirs(rep_dir, exist_ok=True)
         path = os.path.join(rep_dir, safe(o['name']) + '.json')
         rec = {'property': pid, 'obligation': o['name'], 'kind': o['kind'], 'backend': o.get('backend'),
